@@ -407,6 +407,26 @@ pub const TEMPLATES: &[Template] = &[
     ..T0
   },
   Template {
+    name: "global-with-local-utils",
+    langs: JS,
+    severity: "info",
+    message: "literal or template (global util with its own local utils)",
+    rule: "  matches: g-wrap\n",
+    needs_utils: &["g-literal", "g-wrap"],
+    valid: &["foo(a)"],
+    invalid: &["foo(1)"],
+    ..T0
+  },
+  Template {
+    name: "g-wrap",
+    langs: JS,
+    rule: "  any:\n  - matches: loc\n  - kind: template_string\n",
+    utils: &[("loc", "    matches: g-literal\n")],
+    needs_utils: &["g-literal"],
+    is_util: true,
+    ..T0
+  },
+  Template {
     name: "global-literal-call",
     langs: JS,
     severity: "info",
@@ -713,7 +733,7 @@ pub fn instantiate(t: &Template, lang: &str, suffix: &str) -> RuleSpec {
   // references to global utils must carry the language tag too
   let fixrefs = |s: &str| -> String {
     let mut s = s.to_string();
-    for u in ["g-call-with-literal", "g-literal", "g-lit-or-id", "g-stmt-with-literal"] {
+    for u in ["g-call-with-literal", "g-literal", "g-lit-or-id", "g-stmt-with-literal", "g-wrap"] {
       s = s.replace(&format!("matches: {u}\n"), &format!("matches: {u}-{tag}\n"));
     }
     s
